@@ -41,13 +41,14 @@ MUTANTS = [
      "        self._residuals = []\n        self._max_turn = 0.0", "        self._residuals = globals().setdefault('_leak', [])\n        self._max_turn = 0.0"),
     # ---- C02: counting rule
     ("c02-fourpoint-strict", "C02", R + "extension.pyx",
-     "if bc <= ab and bc <= cd:", "if bc < ab and bc <= cd:"),
+     "if (b > c and c >= a and d >= b) or (b < c and c <= a and d <= b):",
+     "if (b > c and c > a and d >= b) or (b < c and c < a and d <= b):"),
     ("c02-threepoint-no-front-guard", "C02", R + "extension.pyx",
      "elif (start >= _max(lowest_front, highest_front) and",
      "elif (start >= 0 and"),
     ("c02-fkm-close-strict", "C02", R + "fkm.py",
-     "if np.abs(current-last0) >= np.abs(last0-last1):",
-     "if np.abs(current-last0) > np.abs(last0-last1):"),
+     "if (last0 > last1 and current <= last1) or (last0 < last1 and current >= last1):",
+     "if (last0 > last1 and current < last1) or (last0 < last1 and current > last1):"),
     ("c02-revert-underflow", "C02", R + "general.py",
      "    peak_turns = changes_direction(diffs[:-1], diffs[1:])\n", "    peak_turns = diffs[:-1] * diffs[1:] < 0.0\n"),
     ("c02-plateau-last-sample", "C02", R + "general.py",
